@@ -59,8 +59,19 @@ pub fn build(shape: usize, consolidate: bool) -> World {
             xot.append(a, t1).unwrap();
             xot.append(a, b).unwrap();
             xot.append(a, t2).unwrap();
+            let mut extra = Vec::new();
+            if !consolidate {
+                // three adjacent text nodes at the end (possible only while consolidation is off)
+                // (concrete contents: every symbolic text multiplies the paths of the whitespace-sensitive calls)
+                let t2b = xot.new_text("p");
+                let t2c = xot.new_text("q");
+                xot.append(a, t2b).unwrap();
+                xot.append(a, t2c).unwrap();
+                extra.extend([t2b, t2c]);
+            }
             let u = xot.new_element(name_w);
             nodes.extend([d, a, t1, b, t2, u]);
+            nodes.extend(extra);
         }
         1 => {
             // element with 2 namespace nodes, 2 attributes, comment, child; spare attr / ns nodes
